@@ -347,8 +347,9 @@ theorem task_refused_transition_retried_on_raw_input (env : Env) (fuel : Nat) (s
     (hr : rpcFunction ((fldStr state "Resource").getD []) = some fn)
     (hi : applyPath data ctx (pathArg state "InputPath") = .ok input)
     (hp : tmplOpt env input ctx (fld state "Parameters") = .ok params)
+    (own : Option Rat) (hown : taskOwnDeadline state data ctx st.clock = .ok own)
     (ha : taskArrival (env.delay fn params (bump st.counts (fn, params)).1)
-        ((taskLimit (taskDeadline state st.clock) env.deadline st.clock).map (·.t)) st.clock
+        ((taskLimit own env.deadline st.clock).map (·.t)) st.clock
       = some (tEnd, false))
     (hv : taskReply env.maxData (env.task fn params (bump st.counts (fn, params)).1) = .ok v)
     (hs : tmplOpt env v ctx (fld state "ResultSelector") = .ok result)
@@ -372,7 +373,7 @@ theorem task_refused_transition_retried_on_raw_input (env : Env) (fuel : Nat) (s
   have h3 : (S "Task" = S "Fail") = False := by decide
   have h4 : (S "Task" = S "Wait") = False := by decide
   have h5 : (S "Task" = S "Choice") = False := by decide
-  simp [runState, h, h1, h2, h3, h4, h5, hr, hi, hp, ha, taskOutcome, taskEv, hv, hs, hm]
+  simp [runState, h, h1, h2, h3, h4, h5, hr, hi, hp, hown, ha, taskOutcome, taskEv, hv, hs, hm]
 
 /-! ### non-vacuity -/
 private def r1 : Retrier := { errorEquals := [S "A"], interval := 2, maxAttempts := 2, backoff := 3/2 }
@@ -442,7 +443,7 @@ example (fuel : Nat) (states : Json) :
           (.lambdaSucceeded reply) 10).retryAfter (S "T") d) := by
   obtain ⟨d, hd⟩ := hRetry0
   exact ⟨d, task_refused_transition_retried_on_raw_input envS fuel states (S "T") (S "f") (S "N") tState rawIn (.obj [])
-    rawIn rawIn reply reply bigOut 0 {} d 1 10 (by rfl) (by rfl) (by rfl) (by rfl) (by decide +kernel) (by rfl) (by rfl) (by rfl)
+    rawIn rawIn reply reply bigOut 0 {} d 1 10 (by rfl) (by rfl) (by rfl) (by rfl) none (by rfl) (by decide +kernel) (by rfl) (by rfl) (by rfl)
     hEnd hNext hBig hd (Env.retryCut_no_deadline _ _ rfl)⟩
 /-- a fan-out state with the same Retry, entered with retry count 0 (hypotheses of
 `fanout_refused_transition_keeps_retry_count`; `tState`'s Type plays no part in the join) -/
